@@ -659,7 +659,7 @@ impl ParserListener for Screen {
             // enabled, move the cursor to the beginning of the next line,
             // otherwise replace characters already displayed with newly
             // entered.
-            if self.cursor.x == self.columns {
+            if self.cursor.x == self.columns && (char_width > 0 || is_combining_mark(char)) {
                 if self.mode.contains(&DECAWM) {
                     self.dirty.insert(self.cursor.y);
                     self.cariage_return();
